@@ -159,7 +159,8 @@ def exec_for(e: Engine, s: ast.For, st: State) -> List[Outcome]:
             names.add(t.id)
     fields = stored_fields(e, s.body)
     hst = st.fork()
-    havoc(e, hst, names, fields, spec)
+    cells = invariant_store_cells(e, st, s.body, names, fields)
+    havoc(e, hst, names, fields, spec, cells)
     k = z3.Int(fresh_name("k"))
     # 3. arbitrary iteration
     body_st = hst.fork()
@@ -245,7 +246,54 @@ def run_ghost_code(e: Engine, st: State, code: str, k=None):
         st.store.pop("k", None)
 
 
-def havoc(e: Engine, st: State, names: Set[str], fields: Set[str], spec):
+def invariant_store_cells(e: Engine, st: State, body, names: Set[str], fields: Set[str]):
+    """For attribute stores `R.f = ...` whose receiver expression R is loop-invariant (mentions no name assigned
+    in the loop and no field written in the loop), only the cell (R, f) is havocked instead of the whole array.
+    Returns {field: [receiver SV, ...]} or None for a field that must be havocked entirely."""
+    cells = {}
+    callee_fields = set()
+    for stn in body:
+        for n in ast.walk(stn):
+            if isinstance(n, ast.Call):
+                nm = n.func.id if isinstance(n.func, ast.Name) else (n.func.attr if isinstance(n.func, ast.Attribute) else None)
+                for q, c in e.reg.contracts.items():
+                    if nm and q.split(".")[-1] == nm:
+                        for p in c.modifies:
+                            if "." in p:
+                                callee_fields.add(p.split(".")[-1])
+    for stn in body:
+        for n in ast.walk(stn):
+            targets = n.targets if isinstance(n, ast.Assign) else ([n.target] if isinstance(n, (ast.AugAssign, ast.AnnAssign)) else [])
+            for t in targets:
+                for x in ast.walk(t):
+                    if isinstance(x, ast.Attribute) and isinstance(x.ctx, ast.Store):
+                        f = x.attr
+                        if f in callee_fields:
+                            cells[f] = None
+                            continue
+                        free = {y.id for y in ast.walk(x.value) if isinstance(y, ast.Name)}
+                        chain = {y.attr for y in ast.walk(x.value) if isinstance(y, ast.Attribute)}
+                        if free & names or chain & fields:
+                            cells[f] = None
+                            continue
+                        if cells.get(f, []) is None:
+                            continue
+                        saved = (e.spec_mode, e.pending_raises)
+                        e.spec_mode = True
+                        try:
+                            recv = e.ev(x.value, st)
+                        except Unsupported:
+                            cells[f] = None
+                            continue
+                        finally:
+                            e.spec_mode, e.pending_raises = saved
+                        cells.setdefault(f, []).append(recv)
+    for f in callee_fields:
+        cells[f] = None
+    return cells
+
+
+def havoc(e: Engine, st: State, names: Set[str], fields: Set[str], spec, cells=None):
     for nme in sorted(names):
         if nme in st.store:
             cur = st.store[nme]
@@ -262,13 +310,31 @@ def havoc(e: Engine, st: State, names: Set[str], fields: Set[str], spec):
             if cur.ty.kind == "obj":
                 e.assume_alive(st, st.store[nme])
         # names first assigned inside the loop need no havoc
+    cells = cells or {}
+    whole = set()
+    for fname in fields:
+        recvs = cells.get(fname)
+        if recvs:
+            # havoc single cells
+            for recv in recvs:
+                owner, ty = e.resolve_field(st, recv, fname)
+                if owner.endswith(".Metadata"):
+                    owner = "Metadata*"
+                key = f"{owner}.{fname}"
+                arrs = e.heap_get(st, key, ty)
+                fresh = fresh_sv(ty, f"hv_{fname}")
+                e.wf(st, fresh)
+                from .values import to_flat
+                st.heap[key] = [z3.Store(a, recv.v, c) for a, c in zip(arrs, to_flat(fresh, ty))]
+        else:
+            whole.add(fname)
     for key in list(st.heap.keys()):
         fname = key.split(".")[-1]
-        if fname in fields:
+        if fname in whole:
             st.heap[key] = [z3.Const(fresh_name(f"H.{key}.{i}"), a.sort()) for i, a in enumerate(st.heap[key])]
     # fields written in the body but never read before: materialise lazily (heap_get creates H0 arrays,
     # which would wrongly equal the entry heap) -> record that these keys are havocked
-    st.havocked_fields = set(st.havocked_fields) | set(fields)
+    st.havocked_fields = set(st.havocked_fields) | set(whole)
     # ghost variables named in the spec
     for g in getattr(spec, "modifies", []) or []:
         if g.startswith("ghost."):
